@@ -91,4 +91,19 @@ PROPS = {
                          'Report.__getitem__/execute_hooks/start_group/stop_group: assumed frames',
                          'not_enough_sections(...) attaches exactly one feedback (Feedback.__init__ is C20)'],
     },
+    'C20': {
+        'sidecars': ['contracts/c20_feedback.py'],
+        'native': 'c20', 'ground': False,
+        'level': 'proof',
+        'explanation': 'Feedback._handle_condition verified from the real source with condition / message / justification as '
+                       'abstract callees (any value, any Exception): appended exactly once, to the triggered list iff the '
+                       'condition result is truthy, error path recorded as untriggered with error status and the same '
+                       'exception re-raised; Report.add_feedback / add_ignored_feedback for every documented parent kind; '
+                       '_get_message precedence; chomp_spec. Feedback.__init__ keyword merging, template rendering through '
+                       'the formatter and override()/clear() are the bounded stand-in B-feedback.',
+        'trusted_base': ['subclass hooks (condition, _get_message, ...) leave the report lists alone and return a non-object or a '
+                         'list that is not one of the report lists',
+                         '_get_child_feedback of a parent group and report hooks do not raise',
+                         'Feedback.__init__, wrap_fields/FeedbackFieldWrapper.__format__, override/_restore_overrides: bounded only'],
+    },
 }
